@@ -805,3 +805,30 @@ Proof.
     intro Hm. exists l. split; [exact Hm|].
     apply all_some_split in E. rewrite serialise_intercalate, <- E, split_at_join. reflexivity.
 Qed.
+
+(** ** TraceIDFromHex / SpanIDFromHex *)
+Lemma id_from_hex_spec n h :
+  match id_from_hex n h with
+  | Some b => length b = n /\ Forall (fun x => x < 256) b /\ all_zero b = false /\
+              hex_encode b = h /\ forallb lchex h = true /\ nonzero_hex h = true
+  | None => length h <> (2 * n)%nat \/ forallb lchex h = false \/ nonzero_hex h = false
+  end.
+Proof.
+  unfold id_from_hex.
+  destruct (Nat.eqb_spec (length h) (2 * n)) as [L|L]; cbn [andb]; [|left; exact L].
+  destruct (forallb is_lchex h) eqn:F; cbn [andb]; [|right; left; exact F].
+  destruct (hex_decode_props h n L F) as [P1 [P2 P3]].
+  fold (all_zero (hex_decode h)).
+  destruct (all_zero (hex_decode h)) eqn:Z.
+  - right; right. destruct (nonzero_hex h) eqn:NZ; [|reflexivity]. exfalso.
+    unfold nonzero_hex in NZ. apply existsb_exists in NZ as [c [Hc Hn]].
+    apply negb_true_iff, N.eqb_neq in Hn.
+    assert (G : forall l, all_zero l = true -> forallb (fun c => c =? 48) (hex_encode l) = true).
+    { unfold all_zero. induction l as [|x l IH]; cbn [forallb hex_encode]; [reflexivity|].
+      intro H. apply andb_true_iff in H as [Hx Hl]. apply N.eqb_eq in Hx. subst x. cbn. now apply IH. }
+    specialize (G _ Z). rewrite P3 in G. rewrite forallb_forall in G. specialize (G c Hc).
+    apply N.eqb_eq in G. contradiction.
+  - repeat split; auto.
+    destruct (nonzero_hex h) eqn:NZ; [reflexivity|]. apply nonzero_hex_decode in NZ. congruence.
+Qed.
+
